@@ -12,21 +12,40 @@ errors='raise' and 'coerce' agree for scalar cells; an unknown method / errors /
 import z3
 from z3 import And, BoolVal, ForAll, Function, If, Implies, Int, IntSort, Not, Or, Real, RealSort
 
-from ..pyvc.core import Abstract, Closure, Obj, Unsupported, fresh, is_z3, to_real
-from .ndmodel import GI, Nd, NdContract, in_range, is_nd
+from ..pyvc.core import Abstract, Closure, Obj, PyList, Unsupported, fresh, is_z3, to_real
+from .ndmodel import GI, Nd, NdContract, _arith, in_range, is_nd
 
 DR = "fairlearn/metrics/_disaggregated_result.py"
 K = Int("n_groups")
 V = Function("group_value", IntSort(), RealSort())
+VI = Function("group_count", IntSort(), IntSort())          # integer-valued metric cells (counts): numpy integers are scalars too
 OV = Real("overall")
+# with control features: C strata (control-feature combinations) x K sensitive groups; obligations are stated for ONE generic stratum GI in [0,C)
+C = Int("n_strata")
+V2 = Function("stratum_group_value", IntSort(), IntSort(), RealSort())
+OV2 = Function("stratum_overall", IntSort(), RealSort())
+
+
+def at_generic_stratum(f):
+    def cell(c):
+        if c is not GI and not (is_z3(c) and c.eq(GI)):
+            raise Unsupported("per-stratum value read at another stratum than the generic one")
+        return f()
+    return cell
 g_ = Int("g")
 
 
-def extremum(st, cell, kind, name):
-    """spec min/max of cell over [0,K): fresh value + witness (assumed pandas contract on non-NaN data)"""
+def is_nan(v):
+    return isinstance(v, Abstract) and v.tag == "nan"
+
+
+def extremum(st, cell, kind, name, pat=None):
+    """spec min/max of cell over [0,K): fresh value + witness (assumed pandas contract on non-NaN data; an all-NaN column gives NaN)"""
+    if is_nan(cell(g_)):
+        return Abstract("nan")
     m, w = fresh(name, RealSort()), fresh(name + "_at")
     st.assume(0 <= w, w < K, to_real(cell(w)) == m,
-              ForAll([g_], Implies(And(0 <= g_, g_ < K), m <= to_real(cell(g_)) if kind == "min" else m >= to_real(cell(g_))), patterns=[V(g_)]))
+              ForAll([g_], Implies(And(0 <= g_, g_ < K), m <= to_real(cell(g_)) if kind == "min" else m >= to_real(cell(g_))), patterns=[pat(g_) if pat else V(g_)]))
     return m
 
 
@@ -35,26 +54,76 @@ class _Agg(NdContract):
     check_pointwise_division = True
     prune = True
 
+    int_cells = False
+    cf = False
+
+    def val(self, g):
+        return V2(GI, g) if self.cf else to_real(VI(g)) if self.int_cells else V(g)
+
+    def pat(self, g):
+        return V2(GI, g) if self.cf else VI(g) if self.int_cells else V(g)
+
+    def ov(self):
+        return OV2(GI) if self.cf else OV
+
+    def result_value(self, value):
+        """the aggregate of the generic stratum (one value per metric and control-feature combination), or None"""
+        if not (is_nd(value) and value.cell):
+            return None
+        if self.cf:
+            return value.cell(GI) if len(value.shape) == 1 and getattr(value, "by_control", False) else None
+        return value.cell() if len(value.shape) == 0 else None
+
+    def on_binop(self, eng, st, node, op, a, b):
+        if op in ("Add", "Sub", "Mult", "Div") and is_nd(a) and is_nd(b) and getattr(a, "levels", 0) == 2 and getattr(b, "by_control", False) and a.cell and b.cell:
+            # pandas aligns a (control, sensitive)-indexed frame with a control-indexed one on the shared levels: broadcast over the sensitive level (assumed)
+            return self._derive(a, name=f"({a.name}{op}{b.name})", cell=lambda c, g: _arith(op, a.cell(c, g), b.cell(c)))
+        r = super().on_binop(eng, st, node, op, a, b)
+        if is_nd(r) and is_nd(a) and is_nd(b) and getattr(a, "by_control", False) and getattr(b, "by_control", False):
+            r.by_control = True          # both operands carry one value per control-feature combination, same index
+        return r
+
+    def spec_extremum(self, st, kind, name):
+        return extremum(st, self.val, kind, name, self.pat)
+
+    def on_attr(self, eng, st, node, base, attr):
+        if isinstance(base, Abstract) and base.tag == "module" and base.name == "numpy" and attr in ("np.nan", "numpy.nan", "nan"):
+            return Abstract("nan")
+        return super().on_attr(eng, st, node, base, attr)
+
     def base_env(self, st):
         st.assume(K >= 1)
-        self.by_group = Nd("by_group", (K,), "frame", "DEFAULT", cell=lambda g: V(g), is_by_group=True)
+        if self.cf:
+            st.assume(C >= 1, 0 <= GI, GI < C)
+            self.by_group = Nd("by_group", (C, K), "frame", "DEFAULT", cell=lambda c, g: V2(c, g), is_by_group=True, levels=2)
+            self.overall = Nd("overall", (C,), "frame", "DEFAULT", cell=lambda c: OV2(c), by_control=True)
+            return Obj("DisaggregatedResult", {"by_group": self.by_group, "overall": self.overall})
+        self.by_group = Nd("by_group", (K,), "frame", "DEFAULT", cell=(lambda g: VI(g)) if self.int_cells else (lambda g: V(g)), is_by_group=True)
         self.overall = Nd("overall", (), "series", "DEFAULT", cell=lambda: OV)
         return Obj("DisaggregatedResult", {"by_group": self.by_group, "overall": self.overall})
 
     def on_call(self, eng, st, node, name, recv, args, kwargs):
         if name in ("apply", "transform") and is_nd(recv) and recv.cell and args and isinstance(args[0], Closure):
             clo = args[0]
-            probe = Nd("column", recv.shape, "series", "DEFAULT", cell=recv.cell, is_column=True)
+            probe = self._derive(recv, name="column", kind="series", is_column=True)
             if getattr(recv, "is_column", False) or name == "transform":
                 c = recv.cell          # element-wise application
                 return self._derive(recv, cell=lambda *ix: eng.summarize_closure(clo, [c(*ix)], st))
             # frame.apply(f): f receives each column
             return eng.call(clo, [probe], {}, st, node)
-        if name == "agg" and is_nd(recv) and recv.cell and args and args[0] in ("min", "max"):
-            m = extremum(st, recv.cell, args[0], "group_" + args[0])
+        if name == "groupby" and is_nd(recv) and getattr(recv, "levels", 0) == 2:
+            ok = not args and set(kwargs) == {"level"} and kwargs["level"] is st.env.get("control_feature_names")
+            eng.oblige(st, "groups_by_the_control_levels_of_the_index", BoolVal(bool(ok)), "wiring", node)
+            return Abstract("grouped", of=recv)
+        if isinstance(recv, Abstract) and recv.tag == "grouped" and (name in ("min", "max") and not args or name == "agg" and args and args[0] in ("min", "max")):
+            kind, of = (name if name != "agg" else args[0]), recv.of
+            m = extremum(st, lambda g: of.cell(GI, g), kind, "stratum_" + kind, self.pat)
+            return Nd(f"{kind}_per_stratum({of.name})", (C,), "frame", "DEFAULT", cell=at_generic_stratum(lambda: m), by_control=True)
+        if name == "agg" and is_nd(recv) and recv.cell and args and args[0] in ("min", "max") and not getattr(recv, "levels", 0):
+            m = extremum(st, recv.cell, args[0], "group_" + args[0], self.pat)
             return Nd(f"{args[0]}({recv.name})", (), "series", "DEFAULT", cell=lambda: m, extremum=(args[0], recv))
         if name in ("min", "max") and is_nd(recv) and recv.cell and len(recv.shape) == 1 and not args:
-            m = extremum(st, recv.cell, name, "col_" + name)
+            m = extremum(st, recv.cell, name, "col_" + name, self.pat)
             return Nd(f"{name}({recv.name})", (), "series", "DEFAULT", cell=lambda: m)
         if name == "abs" and is_nd(recv) and recv.cell:
             c = recv.cell
@@ -64,93 +133,163 @@ class _Agg(NdContract):
             if kind not in ("min", "max"):
                 raise Unsupported("apply_grouping of another function")
             eng.oblige(st, "errors_setting_forwarded", BoolVal(kwargs.get("errors") is st.env.get("errors")), "wiring", node)
-            m = extremum(st, self.by_group.cell, kind, "group_" + kind)       # callee contract (ApplyGrouping, proved separately)
+            eng.oblige(st, "control_feature_names_forwarded", BoolVal(len(args) == 2 and args[1] is st.env.get("control_feature_names")), "wiring", node)
+            if self.cf:
+                m = extremum(st, lambda g: V2(GI, g), kind, "group_" + kind, self.pat)
+                return Nd(f"group_{kind}", (C,), "frame", "DEFAULT", cell=at_generic_stratum(lambda: m), by_control=True)
+            m = extremum(st, self.by_group.cell, kind, "group_" + kind, self.pat)       # callee contract (ApplyGrouping, proved separately)
             return Nd(f"group_{kind}", (), "series", "DEFAULT", cell=lambda: m, extremum=(kind, self.by_group))
         if name == "numpy.isscalar" and is_z3(args[0]):
+            return True          # python / numpy numbers of any kind (float, int, bool) are scalars
+        if name == "numpy.isscalar" and is_nan(args[0]):
             return True
         return super().on_call(eng, st, node, name, recv, args, kwargs)
 
 
-class ApplyGrouping(_Agg):
+def native_search(kind, a, b, int_cells=False, kmax=3):
+    """bounded native search on the real DisaggregatedResult for an input that contradicts the property's formula (used after a refuted / undecided
+    obligation): group values from a small signed grid (difference, extrema) or a positive grid (ratio: the negative case is the separate known finding)."""
+    import itertools
+    import math
+    import numpy as np
+    import pandas as pd
+    from fairlearn.metrics._disaggregated_result import DisaggregatedResult
+    signed = [-2, -1, 0, 1, 3] if int_cells else [-2.0, -0.5, 0.0, 0.5, 1.0, 3.0]
+    pos = [1, 2, 5] if int_cells else [0.25, 0.5, 1.0, 2.0]
+    grid = pos if kind == "ratio" else signed
+    wrap = (lambda x: np.int64(x)) if int_cells else float
+    for k in range(1, kmax + 1):
+        for vals in itertools.product(grid, repeat=k):
+            for ov in (grid if b is not None and a == "to_overall" else grid[:1]):
+                bg = pd.DataFrame({"m": [wrap(v) for v in vals]}, index=pd.Index([f"g{i}" for i in range(k)], name="sf"))
+                dr = DisaggregatedResult(pd.Series({"m": wrap(ov)}), bg)
+                try:
+                    if kind == "grouping":
+                        got, want = dr.apply_grouping(a, None, errors=b)["m"], (min(vals) if a == "min" else max(vals))
+                    elif kind == "difference":
+                        got = dr.difference(None, method=a, errors=b)["m"]
+                        want = max(vals) - min(vals) if a == "between_groups" else max(abs(v - ov) for v in vals)
+                    else:
+                        got = dr.ratio(None, method=a, errors=b)["m"]
+                        want = min(vals) / max(vals) if a == "between_groups" else min(min(v / ov, ov / v) for v in vals)
+                except Exception as ex:
+                    got, want = f"{type(ex).__name__}: {ex}"[:120], "a number"
+                ok = isinstance(got, (int, float, np.number)) and not (isinstance(got, float) and math.isnan(got)) and abs(float(got) - float(want)) <= 1e-9
+                if not ok:
+                    return {"by_group": [float(v) for v in vals], "overall": float(ov), "integer_cells": int_cells, "call": [kind, a, b], "got": repr(got), "expected": repr(want)}
+    return None
+
+
+class _Replay:
+    kind = None
+
+    def replay(self, ob, r):
+        a, b = (self.fn_name, self.errors) if self.kind == "grouping" else (self.method, self.errors)
+        if b not in ("raise", "coerce") or a not in ("min", "max", "between_groups", "to_overall"):
+            return None
+        found = native_search(self.kind, a, b, self.int_cells)
+        if found is None:
+            return {"confirmed": False}
+        return {"confirmed": True, "key": f"C02:{self.kind}:{a}:{b}:wrong-value",
+                "what": f"DisaggregatedResult {self.kind}({a}, errors={b}) on by_group={found['by_group']} overall={found['overall']} -> {found['got']}, expected {found['expected']}", "replay": found}
+
+
+class ApplyGrouping(_Replay, _Agg):
+    kind = "grouping"
     function = "DisaggregatedResult.apply_grouping"
 
-    def __init__(self, fn_name, errors):
-        self.fn_name, self.errors = fn_name, errors
-        self.variant = f"[{fn_name},{errors}]"
+    def __init__(self, fn_name, errors, int_cells=False, cf=False):
+        self.fn_name, self.errors, self.int_cells, self.cf = fn_name, errors, int_cells, cf
+        self.variant = f"[{fn_name},{errors}{',integer cells' if int_cells else ''}{',control features' if cf else ''}]"
 
     def params(self, eng, st):
-        st.env.update({"self": self.base_env(st), "grouping_function": self.fn_name, "control_feature_names": None, "errors": self.errors})
+        st.env.update({"self": self.base_env(st), "grouping_function": self.fn_name, "control_feature_names": PyList(["cf"]) if self.cf else None, "errors": self.errors})
 
     def post(self, eng, st, status, value):
         valid = self.fn_name in ("min", "max") and self.errors in ("raise", "coerce")
         if status == "raise":
             return [("raises_only_for_unknown_function_or_errors_value", BoolVal(not valid)), ("raises_ValueError", BoolVal(value.typ in ("ValueError", "AssertionError")))]
-        if not (is_nd(value) and value.cell and len(value.shape) == 0):
-            return [("returns_one_value_per_metric", BoolVal(False))]
-        r = to_real(value.cell())
+        rv = self.result_value(value)
+        if rv is None:
+            return [("returns_one_value_per_metric_and_control_combination", BoolVal(False))]
+        if not is_z3(rv):
+            return [("scalar_cells_are_never_coerced_to_NaN", BoolVal(False))]
+        r = to_real(rv)
         cmp = (lambda a, b: a <= b) if self.fn_name == "min" else (lambda a, b: a >= b)
         w = Int("w")
         return [("returns_only_for_known_arguments", BoolVal(valid)),
-                ("bounds_every_group", ForAll([g_], Implies(And(0 <= g_, g_ < K), cmp(r, V(g_))))),
-                ("is_attained_by_some_group", z3.Exists([w], And(0 <= w, w < K, V(w) == r)))]
+                ("bounds_every_group", ForAll([g_], Implies(And(0 <= g_, g_ < K), cmp(r, self.val(g_))))),
+                ("is_attained_by_some_group", z3.Exists([w], And(0 <= w, w < K, self.val(w) == r)))]
 
 
-class Difference(_Agg):
+class Difference(_Replay, _Agg):
+    kind = "difference"
     function = "DisaggregatedResult.difference"
 
-    def __init__(self, method, errors):
-        self.method, self.errors = method, errors
-        self.variant = f"[{method},{errors}]"
+    def __init__(self, method, errors, int_cells=False, cf=False):
+        self.method, self.errors, self.int_cells, self.cf = method, errors, int_cells, cf
+        self.variant = f"[{method},{errors}{',integer cells' if int_cells else ''}{',control features' if cf else ''}]"
 
     def params(self, eng, st):
-        st.env.update({"self": self.base_env(st), "control_feature_names": None, "method": self.method, "errors": self.errors})
+        st.env.update({"self": self.base_env(st), "control_feature_names": PyList(["cf"]) if self.cf else None, "method": self.method, "errors": self.errors})
 
     def post(self, eng, st, status, value):
         valid = self.method in ("between_groups", "to_overall") and self.errors in ("raise", "coerce")
         if status == "raise":
             return [("raises_only_for_unknown_method_or_errors_value", BoolVal(not valid)), ("raises_ValueError", BoolVal(value.typ == "ValueError"))]
-        if not (is_nd(value) and value.cell and len(value.shape) == 0):
-            return [("returns_one_value_per_metric", BoolVal(False))]
-        r = to_real(value.cell())
-        mn, mx = extremum(st, lambda g: V(g), "min", "spec_min"), extremum(st, lambda g: V(g), "max", "spec_max")
+        rv = self.result_value(value)
+        if rv is None:
+            return [("returns_one_value_per_metric_and_control_combination", BoolVal(False))]
+        if not is_z3(rv):
+            return [("scalar_cells_are_never_coerced_to_NaN", BoolVal(False))]
+        r = to_real(rv)
+        mn, mx = self.spec_extremum(st, "min", "spec_min"), self.spec_extremum(st, "max", "spec_max")
+        V = self.val
         out = [("returns_only_for_known_arguments", BoolVal(valid)), ("difference_is_non_negative", r >= 0)]
         if self.method == "between_groups":
             out.append(("difference_is_group_max_minus_group_min", r == mx - mn))
         else:
             w = Int("w")
+            OV = self.ov()
             absd = lambda g: If(V(g) - OV >= 0, V(g) - OV, OV - V(g))
             out += [("bounds_every_groups_distance_to_overall", ForAll([g_], Implies(And(0 <= g_, g_ < K), absd(g_) <= r))),
                     ("is_the_distance_of_some_group", z3.Exists([w], And(0 <= w, w < K, absd(w) == r)))]
         return out
 
 
-class Ratio(_Agg):
+class Ratio(_Replay, _Agg):
+    kind = "ratio"
     function = "DisaggregatedResult.ratio"
 
-    def __init__(self, method, errors):
-        self.method, self.errors = method, errors
-        self.variant = f"[{method},{errors}]"
+    def __init__(self, method, errors, int_cells=False, cf=False):
+        self.method, self.errors, self.int_cells, self.cf = method, errors, int_cells, cf
+        self.variant = f"[{method},{errors}{',integer cells' if int_cells else ''}{',control features' if cf else ''}]"
 
     def params(self, eng, st):
-        st.env.update({"self": self.base_env(st), "control_feature_names": None, "method": self.method, "errors": self.errors})
+        st.env.update({"self": self.base_env(st), "control_feature_names": PyList(["cf"]) if self.cf else None, "method": self.method, "errors": self.errors})
         if self.method == "to_overall":
-            st.assume(OV != 0)
+            st.assume(self.ov() != 0)
         else:
-            st.assume(ForAll([g_], Implies(And(0 <= g_, g_ < K), V(g_) > 0), patterns=[V(g_)]))      # positive metric values: min/max is defined and in (0,1]
+            st.assume(ForAll([g_], Implies(And(0 <= g_, g_ < K), self.val(g_) > 0), patterns=[self.pat(g_)]))      # positive metric values: min/max is defined and in (0,1]
 
     def post(self, eng, st, status, value):
         valid = self.method in ("between_groups", "to_overall") and self.errors in ("raise", "coerce")
         if status == "raise":
             return [("raises_only_for_unknown_method_or_errors_value", BoolVal(not valid)), ("raises_ValueError", BoolVal(value.typ == "ValueError"))]
-        if not (is_nd(value) and value.cell and len(value.shape) == 0):
-            return [("returns_one_value_per_metric", BoolVal(False))]
-        r = to_real(value.cell())
+        rv = self.result_value(value)
+        if rv is None:
+            return [("returns_one_value_per_metric_and_control_combination", BoolVal(False))]
+        if not is_z3(rv):
+            return [("scalar_cells_are_never_coerced_to_NaN", BoolVal(False))]
+        r = to_real(rv)
+        V = self.val
         out = [("returns_only_for_known_arguments", BoolVal(valid))]
         if self.method == "between_groups":
-            mn, mx = extremum(st, lambda g: V(g), "min", "spec_min"), extremum(st, lambda g: V(g), "max", "spec_max")
+            mn, mx = self.spec_extremum(st, "min", "spec_min"), self.spec_extremum(st, "max", "spec_max")
             out += [("ratio_is_group_min_over_group_max", r * mx == mn), ("ratio_at_most_one", r <= 1), ("ratio_non_negative", r >= 0)]
         else:
             w = Int("w")
+            OV = self.ov()
             q = lambda g: V(g) / OV
             f = lambda x: If(x > 1, 1 / x, x)                     # the code's ratio_sub_one (contract RatioSubOne: = min(r, 1/r) for r > 0)
             out += [("bounds_every_groups_folded_ratio", ForAll([g_], Implies(And(0 <= g_, g_ < K), r <= f(q(g_))))),
